@@ -321,6 +321,31 @@ func c04Decode(w *mon.W, idx int) {
 			}
 		}
 		w.Bucket("decode/roundtrip")
+		if idx%3 == 2 && h >= 5 {
+			// the structure a trie bitmap really has: whole SUBTREES present next to whole subtrees absent (the stored nodes
+			// of a subtree are one contiguous run of bits whose ends are not 64-bit aligned). Round 14 seeded a run of full
+			// groups that was not closed when an empty aligned subtree was skipped.
+			for k := 0; k < 8; k++ {
+				l := 1 + r.Intn(h)
+				if h > 8 && r.Intn(2) == 0 {
+					l = h - 8 + r.Intn(6) // subtrees of 8 .. 512 leaves
+				}
+				prefix := r.Uint64() & (uint64(1)<<uint(l) - 1)
+				lo := bmPathWord(prefix, l, h)
+				hi := lo | (uint64(1)<<uint(h-l)-1)<<32 | 0xffffffff // the largest path word below this node
+				v := k%2 == 0
+				for i, p := range list {
+					if p >= lo && p <= hi {
+						if v {
+							setBit(bm, i)
+						} else {
+							bm[i>>6] &^= 1 << uint(i&63)
+						}
+					}
+				}
+			}
+			w.Bucket("decode/whole-subtrees-present-and-absent")
+		}
 	}
 	orig := cloneWords(bm)
 	// the bitmap is a view of a larger array whose cells beyond len hold poison (a prefix of a bigger
